@@ -21,11 +21,11 @@ STRINGS = [
     "x" * 300, "\x00", "\x1f", "\r", "a\r\nb", "\x7f", "\ud7ff", "\ufffd", "=", "<<", "?", "|", ">", "@at", "`bt`", "%p",
     "'", '"', "''", "\\", "\\n", "a b", "k0", "item", "type", "config",
     "http://example.com/index.html", "src/*.py and tests/*/conftest.py", "// not a comment", "/* neither */", "a//b", "# x", "<!--x-->",
-    "p1\n\np2", "l1\n  \nl2\n", "\n\n\n", "--", "%YAML 1.2", "---", "...", "&anchor", "*alias", "!!python/object:os.system", "${HOME}", "%(x)s", "{{ x }}",
+    "First_x0020_Name", "l1_x000A_l2", "_x0041_", "_x000D_", "&#10;", "&#x41;", "\\u0041", "%41", "p1\n\np2", "l1\n  \nl2\n", "\n\n\n", "--", "%YAML 1.2", "---", "...", "&anchor", "*alias", "!!python/object:os.system", "${HOME}", "%(x)s", "{{ x }}",
 ]
 KEYS = ["k0", "k1", "k2", "item", "type", "config", "a.b", "a-b", "_u", "K", "x9", "CONFIG", "cfg", "key", "value",
         "list", "dict", "str", "none"]
-ODD_KEYS = ["", "1", "a b", "k\u00e9", "<k>", "a:b", "true", "null", "~", "$x", "a\x00b", "-d", ".d", "\U0001f600"]
+ODD_KEYS = ["ver\uff0e2", "\uff04set", "a\uff0eb", "\uff0e", "k_x0041_", "", "1", "a b", "k\u00e9", "<k>", "a:b", "true", "null", "~", "$x", "a\x00b", "-d", ".d", "\U0001f600"]
 INTS = [0, 1, -1, 2, 255, 2**31 - 1, 2**31, -2**31, -2**31 - 1, 2**32, 2**53 + 1, 2**63 - 1, -2**63, 2**63, -2**63 - 1,
         2**64, 10**30, -10**40]
 FLOATS = [0.0, -0.0, 1.0, -1.5, 0.1, 1e300, -1e300, 1e-300, 5e-324, 2.0**53, 1e16, 1.0e-5, 123456789.123456789,
